@@ -61,6 +61,7 @@ type provRun struct {
 	consecutiveFleetFailures int
 	exited bool
 	deletesSinceRefresh int // acknowledged terminates since the last refresh (the F6 site)
+	acquiredEver, attachedEver map[string]bool // over the whole history: instances some fleet request returned / acknowledged attaches
 }
 
 func (p *provRun) viol(prop, rule, sub, site, detail string, hl ...*Call) {
@@ -523,6 +524,17 @@ func (p *provRun) judgeIncrease(d int64, k *KnownASG, err error, exit bool) {
 		}
 	}
 	st.Check("c18", uint64(len(F))<<20|uint64(len(attaches))<<8|uint64(len(terms)))
+	if p.acquiredEver == nil {
+		p.acquiredEver, p.attachedEver = map[string]bool{}, map[string]bool{}
+	}
+	defer func() {
+		for _, id := range F {
+			p.acquiredEver[id] = true
+		}
+		for id := range acked {
+			p.attachedEver[id] = true
+		}
+	}()
 	inF := map[string]bool{}
 	for _, id := range F {
 		inF[id] = true
@@ -547,6 +559,10 @@ func (p *provRun) judgeIncrease(d int64, k *KnownASG, err error, exit bool) {
 		}
 	}
 	for _, id := range sortedKeys(termd) {
+		if !inF[id] && p.acquiredEver[id] && !p.attachedEver[id] {
+			st.Probe("orphan of an earlier fleet submitted for termination again")
+			continue // C18 says every acquired instance ends up attached or submitted for termination, not when
+		}
 		if !inF[id] {
 			p.viol("C18", "c18-both", "foreign-terminate", "", "terminated instance "+id+" that this fleet did not return", f)
 			return
